@@ -194,7 +194,7 @@ def tight_case(draw):
     names = draw(st.sampled_from([['x', 'y'], ['T', 'K'], ['K', 'x'], ['x', 'y']]))[:n]
     tol = draw(st.sampled_from(['1e-2', '1e-3', '1e-4', '5e-2', '1e-5']))
     T = float(tol)
-    kind = draw(st.sampled_from(['flip', 'flip', 'slow-decay', 'drift', 'rotation', 'stable', 'trend', 'small-level']))
+    kind = draw(st.sampled_from(['flip', 'flip', 'slow-decay', 'drift', 'rotation', 'stable', 'trend', 'small-level', 'delay2']))
     if kind == 'small-level':
         n, names = 2, names[:1] + ['y'] if len(names) == 1 else names[:2]
     A = [[0] * n for _ in range(n)]
@@ -246,9 +246,21 @@ def tight_case(draw):
             parts.append(('+', trend + draw(st.sampled_from(['*t', '*k']))))
         eqs.append([nm, blocks.join_signed(parts, ' ') if parts else '0.0', 'sim'])
     ss_T = draw(st.sampled_from([50, 51, 20, 5, 200, 7, 2, 1, 0]))
+    lag_list = [['LAG_' + nm, nm, '(k-1)'] for nm in names]
+    if kind == 'delay2':
+        # a two-period delay (a lag of a lag): x = a*LAG2_x + c, a close to -1 gives the pattern p, p, q, q - a variable and its
+        # second lag can both look flat over the last two periods while the first lag is still jumping
+        a2 = draw(st.sampled_from([-100, -99, -95, 100, -101]))
+        eqs = [[names[0], blocks.join_signed([blocks.fmt_coef_term(a2, 'LAG2_' + names[0], 0),
+                                              ('+', draw(st.sampled_from(['10.0', '0.0', '3.5'])))], ' '), 'sim']]
+        names = names[:1]
+        ics = ics[:1]
+        lag_list = [['LAG_' + names[0], names[0], '(k-1)'], ['LAG2_' + names[0], 'LAG_' + names[0], '(k-1)']]
+        ss_T = draw(st.sampled_from([2, 3, 4, 5, 6, 7, 9, 50]))
+        A = [[abs(a2)]]
     norm = max([sum(abs(v) for v in row) / 100.0 for row in A] + [1.0])
     return {
-        'eqs': eqs, 'lags': [['LAG_' + nm, nm, '(k-1)'] for nm in names], 'exo': [], 'ics': ics, 'maxtime': 2, 'tol': '1e-9',
+        'eqs': eqs, 'lags': lag_list, 'exo': [], 'ics': ics, 'maxtime': 2, 'tol': '1e-9',
         'layout': {'eqsp': ' = ', 'perm': None},
         'cert': {'family': 'tight:' + kind, 'norm': norm, 'lam': {}, 'q': 0.0, 'feedforward': True},
         'ss_T': ss_T, 'ss_tol': tol, 'reduction': draw(st.booleans()),
